@@ -647,8 +647,12 @@ class DeserializationMethodVisitor(
             elif (
                 len(method_by_cls) == len(alt_factories)
                 and not any(isinstance(x, CoercerMethod) for x in alt_methods)
-                # integers are valid floats, dispatch by type would miss them
-                and not (float in method_by_cls and int not in method_by_cls)
+                # integers are valid floats: dispatch by type is only possible when
+                # they are always accepted by an (unconstrained) int alternative
+                and (
+                    float not in method_by_cls
+                    or type(method_by_cls.get(int)) is IntMethod
+                )
             ):
                 # Coercion induces a different type in data than type to deserialize.
                 # Prefer UnionMethod in this case.
